@@ -1,17 +1,56 @@
-"""C09 helpers: argument containers and guarded calls into typhon."""
+"""C09 helpers: number representations, argument containers and guarded calls
+into typhon."""
 import numpy as np
 
 U = 2.0 ** -53          # unit round-off of float64
+U32 = 2.0 ** -24        # ... of float32
+
+# The representations a caller's numbers arrive in. numpy computes with
+# float32 arguments in float32, and evaluates log / exp / tanh of int16
+# arguments in float32 as well.
+DTYPES = ("float64", "int64", "int32", "int16", "float32")
+PYTHON = {"float64": float, "int64": int}
 
 # One call per value: the value as a scalar or as the only element of an array.
-PER_VALUE = {"float": float, "float64": np.float64, "0d": np.array,
-             "1": lambda v: np.array([v]), "1x1": lambda v: np.array([[v]])}
+PER_VALUE = {
+    "python": lambda v, dtype: PYTHON[dtype](v),
+    "numpy": lambda v, dtype: np.dtype(dtype).type(v),
+    "0d": lambda v, dtype: np.array(v, dtype=dtype),
+    "1": lambda v, dtype: np.array([v], dtype=dtype),
+    "1x1": lambda v, dtype: np.array([[v]], dtype=dtype),
+}
 # One call on all values: "1d" (n,), "2d" (n, 1).
 CONTAINERS = tuple(PER_VALUE) + ("1d", "2d")
 
 
+def containers(dtype):
+    """Python has no number type of its own for int32, int16 and float32."""
+    return tuple(c for c in CONTAINERS if c != "python" or dtype in PYTHON)
+
+
+def representable(values, dtype):
+    """The values (floats or Fractions) that the dtype holds exactly."""
+    if dtype == "float64":
+        return list(values)
+    kind = np.dtype(dtype)
+    if kind.kind == "f":
+        return [v for v in values if float(np.float32(float(v))) == v]
+    top = np.iinfo(kind).max
+    return [v for v in values if v == int(v) and abs(v) <= top]
+
+
+def unit(*dtypes):
+    """Unit round-off of the arithmetic numpy does on such arguments."""
+    return U32 if "float32" in dtypes else U
+
+
 class ShapeError(Exception):
     """The result does not have the shape of the argument."""
+
+
+class IntegerResult(Exception):
+    """A quantity that is never a whole number came back in an integer
+    dtype."""
 
 
 def atmosphere():
@@ -19,36 +58,43 @@ def atmosphere():
     return atmosphere
 
 
-def call(func, *args):
+def call(func, *args, real=False):
     """One outcome per element of the broadcast arguments: the float result,
-    or the exception the call raised, or a ShapeError."""
+    or the exception the call raised, or a ShapeError, or (real=True: the
+    quantity is never whole) an IntegerResult."""
     shape = np.broadcast_shapes(*(np.shape(a) for a in args))
     n = int(np.prod(shape))
     try:
         with np.errstate(all="ignore"):
             out = func(*args)
+        if np.shape(out) != shape:
+            raise ShapeError("result shape %r for argument shape %r"
+                             % (np.shape(out), shape))
+        if real and np.asarray(out).dtype.kind in "iub":
+            raise IntegerResult("%s result %r"
+                                % (np.asarray(out).dtype, np.ravel(out)[:4]))
+        return [float(v) for v in np.ravel(out)]
     except Exception as exc:
         return [exc] * n
-    if np.shape(out) != shape:
-        return [ShapeError("result shape %r for argument shape %r"
-                           % (np.shape(out), shape))] * n
-    return [float(v) for v in np.ravel(out)]
 
 
-def evaluate(func, container, values):
+def evaluate(func, container, values, dtype="float64", real=False):
     """func applied to every value: one call per value for the PER_VALUE
     containers, one call on the whole list for "1d" / "2d" (column)."""
     if container in PER_VALUE:
-        return [call(func, PER_VALUE[container](v))[0] for v in values]
-    arg = np.array(values, dtype=float)
+        return [call(func, PER_VALUE[container](v, dtype), real=real)[0]
+                for v in values]
+    arg = np.array(values, dtype=float).astype(dtype)
     if container == "2d":
         arg = arg.reshape(-1, 1)
-    return call(func, arg)
+    return call(func, arg, real=real)
 
 
 def failure_key(name, outcome):
     if isinstance(outcome, ShapeError):
         return "shape/" + name
+    if isinstance(outcome, IntegerResult):
+        return "integer-result/" + name
     return "exception/%s/%s" % (name, type(outcome).__name__)
 
 
